@@ -27,8 +27,21 @@ Oracles
                1e-9 in float64).  Following the implementation's kept set makes every step assertable, also behind
                near-ties; steps whose W-th/(W+1)-th gap is <= 1e-5 are counted as non-decisive (evidence only).
  5 best        with select_best the returned reward is the maximum over that instance's beams (independent objectives
-               and the spied rewards), the returned actions are one of the maximal beams and the returned log-probs
-               are that beam's.
+               and the spied rewards), the returned actions are one of the maximal beams, the returned reward is the
+               independent objective of the RETURNED actions, and the returned log-probs are that beam's.
+
+mTSP (cost_type minmax = env default, and sum) is part of the domain: with minmax the env reads the reward from the
+ROLLOUT STATE (td["reward"] accumulated by _step), so the state handed back next to the actions must be the state of the
+beam the actions belong to - oracles 1 and 5 judge the sequences with vf.oracles.routing.judge_mtsp.
+
+Sub-checks big_<regime> (large stacked batches): same call, AM policy with embed 16 / 1 layer, stacked batches whose
+index quantities (parent slot, parent slot * B, flat row, candidate index W*N) cross int8 / uint8 / int16 / uint16.  The
+spy runs in light mode (last history only, plus vf_row = the flat row each row's state was taken from, i.e. the beam
+parents really used).  Asserted, vectorised over all W*B beams: rows stay inside their instance; returned sequence ==
+executed sequence of the row; every beam valid (TSP permutation / mTSP each city once, routes <= agents) and complete;
+reward == independent objective (float64); all actions inside the env mask, episode length, padding tail, log-probs ==
+one teacher-forced pass of vf.models.decode.reference_logprobs over all W*B sequences; beams of an instance pairwise
+distinct; best-selection as in oracle 5.  NOT asserted there: oracle 4 (the per-instance python reference beam search).
 """
 import hypothesis.strategies as st
 import torch
@@ -43,17 +56,27 @@ from .c11 import HANG_S, Hang, watchdog
 
 PROPERTY = "C13"
 RULE = (
-    "case = (env in tsp/cvrp/cvrptw(scale=True)/op/pctsp/spctsp/sdvrp/pdp, n 3-8, beam width 2..n (pdp: mostly <= number "
-    "of pickups; 1/8 of the cases beam_width=None = env default), B 1-4, instance seed, AM policy seed 0-3 x spread {1.25,1.5,2.0}, select_best on/off, capacity / "
-    "max_length variant, env check_solution on/off, float64 slice in thorough). Instances whose forced first moves are not feasible at reset "
+    "beam_search: case = (env in tsp/cvrp/cvrptw(scale=True)/op/pctsp/spctsp/sdvrp/pdp/mtsp (2/10 of the cases; cost_type "
+    "minmax 2/3, sum 1/3; agents per instance from one of 4 ranges), n 3-8 (mtsp: 4-8 locations incl. depot), beam width "
+    "2..n (pdp: mostly <= number of pickups; mtsp: mostly <= number of cities; 1/8 of the cases beam_width=None = env "
+    "default), B 1-4, instance seed, AM policy seed 0-3 x spread {1.25,1.5,2.0}, select_best on/off, capacity / "
+    "max_length / agent-range variant, env check_solution on/off, float64 slice in thorough). Instances whose forced first moves are not feasible at reset "
     "(OP start rule, C12) are excluded and counted. Non-trivial = the reference measured real re-ordering (some kept "
     "beam's parent slot != its own slot) and, for variable-length envs, is additionally classed by whether beams "
     "finish at different steps; distinct = case hash. Decisive fraction (W-th/(W+1)-th candidate gap > 1e-5) is "
-    "reported as event counters."
+    "reported as event counters; select_best_not_slot0|mtsp/<cost type> counts instances whose best beam is not beam 0. "
+    "big_<regime> (one sub-check, one shard per regime; tiny AM policy embed 16 / 1 layer): int16_rows = tsp|mtsp, W 8-12, "
+    "n = W..W+2 nodes (mtsp: cities), B = ceil(2^15/(W-1)) + 0..12%; int16_wide = same with W 20-31; uint16_rows = tsp, "
+    "W in {8,10,12,16}, B = ceil(2^16/(W-1)) + 0..12%; int8_slots = tsp|mtsp, W 129-136, n = W..W+6, B 1-3; uint8_slots = "
+    "tsp, W 257-262, n = W..W+6, B 1-2; each with instance seed, policy seed 0-3 x spread, select_best on/off, env checker "
+    "on/off. The first example of every run is the strategy's minimal one = the regime's exact boundary case (tsp, smallest "
+    "W, n = W, smallest B, e.g. n=10 W=10 B=3641 with (W-1)*B = 32769); quick = boundary case + 1 drawn case per regime. "
+    "Non-trivial (big) = the spy observed real re-ordering AND a kept beam whose parent slot * B (rows regimes) / parent "
+    "slot (slots regimes) lies beyond the regime's limit, i.e. the out-of-range index was really used."
 )
 ASSUMPTIONS = [
-    "AM policy at toy size (embed 32, 2 encoder layers, batch norm, eval mode), spread-initialised, dropout 0, default "
-    "tanh clipping 10 / temperature 1",
+    "AM policy at toy size (embed 32, 2 encoder layers, batch norm, eval mode; big_<regime>: embed 16, 1 layer, 2 heads), "
+    "spread-initialised, dropout 0, default tanh clipping 10 / temperature 1",
     "the reference trusts the bundled encoder/decoder modules, env.step / env masks and env.select_start_nodes (C12), "
     "not BeamSearch / process_logits / get_log_likelihood",
     "the compared score is the sum of the step log-probs of ALL steps so far (forced first move 0, post-finish padding "
@@ -64,6 +87,20 @@ ASSUMPTIONS = [
     "the envs ignore unknown keys)",
     "OP: instances whose forced first moves (nodes 1..W) are not all feasible are excluded (start rule F17 belongs to "
     "C12); instances where the start rule samples feasible (possibly repeated) starts are kept",
+    "mTSP: n locations = depot + n-1 cities; forced first moves are cities 1..W (wrapping around beyond n-1: repeated "
+    "starts, distinctness then not asserted); every (W, B, cost type, select_best) combination probed on the unchanged "
+    "tree runs (B = 1 included), so nothing is excluded; sequences are judged up to the last city visit (the closing "
+    "return to the depot is implicit, trailing depot actions are padding while batch mates finish) with "
+    "vf.oracles.routing.judge_mtsp in the cost type of the env object; more agents than the tour uses are allowed",
+    "mTSP minmax: env.get_reward returns the reward accumulated in the rollout state; the check treats 'reward == "
+    "objective of the actions returned in the same row' as part of 'correctly scored'",
+    "big_<regime>: float32 only; only TSP and mTSP (vectorised float64 verdict vec_judge, cross-checked per case against "
+    "the row oracle judge_tsp / judge_mtsp on 4-8 rows incl. the rows around 2^15 / 2^16); feasibility additionally "
+    "through the env's own masks in the teacher-forced replay; oracle 4 (kept == top-W, reference beam search) is NOT "
+    "asserted there (python reference per instance is too slow at 3e4-8e4 rows); log-prob tolerance as above",
+    "big_<regime>: index ranges reached: int8/uint8/int16/uint16 for row-like quantities ((W-1)*B up to ~8e4), int8/uint8 "
+    "for slot-like quantities (W-1 up to 261), candidate index W*N up to ~7e4 (> int16/uint16 in uint8_slots). int32 "
+    "(2^31 rows or candidates) is out of reach on this machine and not covered; int16 SLOT counts (W >= 32769) neither",
     "not in the domain (vf.policies zoo entries am/mdcpdp, am/dpp, am/mdpp): BeamSearch forces env.select_start_nodes "
     "(nodes 1..W) as first moves, which the MDCPDP reset mask (depot 0 only) never admits - every case would be "
     "'forced_start_infeasible(C12)'; AM on DPP/MDPP cannot decode in the [batch, beams] layout unless B == W "
@@ -71,9 +108,9 @@ ASSUMPTIONS = [
 ]
 TIME_CAP = {"quick": 300, "thorough": 2400}
 
-ENVS = ["tsp", "cvrp", "cvrptw", "op", "pctsp", "spctsp", "sdvrp", "pdp"]
-VARLEN = ("cvrp", "cvrptw", "op", "pctsp", "spctsp", "sdvrp")
-DEPOT = ("cvrp", "cvrptw", "op", "pctsp", "spctsp", "sdvrp")
+ENVS = ["tsp", "cvrp", "cvrptw", "op", "pctsp", "spctsp", "sdvrp", "pdp", "mtsp", "mtsp"]
+VARLEN = ("cvrp", "cvrptw", "op", "pctsp", "spctsp", "sdvrp", "mtsp")
+DEPOT = ("cvrp", "cvrptw", "op", "pctsp", "spctsp", "sdvrp", "mtsp")
 GAP = 1e-5
 
 
@@ -85,10 +122,18 @@ def cases(draw, tier="quick"):
     if envn == "pdp":
         n = max(2, 2 * (n // 2))
         wmax = max(2, n // 2) if draw(st.sampled_from([True] * 4 + [False])) else n  # beyond the pickups the forced starts repeat
+    elif envn == "mtsp":
+        n = max(4, n)  # n locations = depot + n-1 cities
+        wmax = (n - 1) if draw(st.sampled_from([True] * 7 + [False])) else n  # beyond the cities the forced starts repeat
     else:
         wmax = n
     W = draw(st.sampled_from(list(range(2, wmax + 1))))
+    extra = {}
+    if envn == "mtsp":
+        # default objective minmax: the reward lives in the ROLLOUT STATE (td["reward"]), not in the action sequence
+        extra["ct"] = draw(st.sampled_from(["minmax", "minmax", "sum"]))
     return dict(
+        **extra,
         env=envn, n=n, W=W, B=draw(st.integers(1, 4)), iseed=draw(st.integers(0, 2 ** 20)),
         pseed=draw(st.integers(0, 3)), spread=draw(st.sampled_from([1.25, 1.5, 1.5, 1.6, 2.0])),
         select_best=draw(st.booleans()), variant=draw(st.integers(0, 3)), check=draw(st.booleans()),
@@ -97,13 +142,20 @@ def cases(draw, tier="quick"):
     )
 
 
-def env_cfg(envn, n, variant):
+def env_cfg(envn, n, variant, ct=None):
     cfg = small_cfg(envn, n)
     v = int(variant)
     if envn in ("cvrp", "sdvrp", "cvrptw"):
         cfg["capacity"] = [None, None, 10.0, 20.0][v]  # small capacities: more routes, beams of different length
     elif envn == "op":
         cfg["max_length"] = [None, 2.0, 3.0, 3.0][v]   # 3.0: every node is a feasible first move
+    elif envn == "mtsp":
+        # agents drawn per instance from [lo, hi] by the generator (1 agent = a TSP from the depot; more agents than
+        # the tour uses are allowed); cost type of the env object
+        m = cfg["n"] - 1
+        lo, hi = [(2, 3), (1, 2), (1, m), (3, 4)][v]
+        cfg["min_agents"], cfg["max_agents"] = min(lo, m), min(hi, m)
+        cfg["cost_type"] = ct or "minmax"
     return cfg
 
 
@@ -116,7 +168,7 @@ def minimize(case):
         yield {**c, "W": c["W"] - 1}
         yield {**c, "W": 2}
     step = 2 if c["env"] == "pdp" else 1
-    lo = 2 if c["env"] == "pdp" else 3
+    lo = 2 if c["env"] == "pdp" else (4 if c["env"] == "mtsp" else 3)
     if c["n"] - step >= lo:
         yield {**c, "n": c["n"] - step, "W": min(c["W"], c["n"] - step)}
     for key, val in (("f64", False), ("select_best", False), ("check", True), ("wdefault", False), ("variant", 0),
@@ -133,12 +185,21 @@ TCAP_EXTRA = 8
 class SpyEnv:
     """Delegates everything to the real env; observes forced starts, executed histories and reward calls."""
 
-    def __init__(self, env):
+    def __init__(self, env, light=False, B=None):
         object.__setattr__(self, "_env", env)
         self.starts = []
         self.steps = []    # per env.step call: dict(hist [R,Tcap], len [R], inst [R], done [R]) AFTER the step
         self.rewards = []  # per get_reward call: (actions, rewards)
         self.lost_keys = 0
+        # light (large stacked batches): only the LAST step record is kept; per step the spy keeps the flat row every
+        # row's state was taken from (harness key vf_row = arange(R) written after each step and re-indexed by
+        # BeamSearch together with the state) and the first step at which a row held another instance's state
+        self.light = bool(light)
+        self.B = B
+        self.n_steps = 0
+        self.parents = []  # light: per env.step call t >= 1 the [R] parent rows (step 0: the forced start, no parent)
+        self.first_actions = None  # light: actions executed by the first env.step call
+        self.crossed_at = None
 
     def __getattr__(self, k):
         return getattr(object.__getattribute__(self, "_env"), k)
@@ -166,8 +227,19 @@ class SpyEnv:
         nxt.set("vf_hist", hist)
         nxt.set("vf_len", ln)
         nxt.set("vf_inst", inst)
-        self.steps.append(dict(hist=hist.clone(), len=ln.clone(), inst=inst.clone(),
-                               done=nxt["done"].reshape(R, -1).all(-1).clone()))
+        if self.light:
+            if self.n_steps == 0:
+                self.first_actions = a.clone()
+            if "vf_row" in td.keys():
+                self.parents.append(td["vf_row"].clone())
+            nxt.set("vf_row", torch.arange(R))
+            if self.crossed_at is None and not torch.equal(inst, torch.arange(R) % self.B):
+                self.crossed_at = self.n_steps
+            self.steps = [dict(hist=hist, len=ln, inst=inst, done=nxt["done"].reshape(R, -1).all(-1).clone())]
+        else:
+            self.steps.append(dict(hist=hist.clone(), len=ln.clone(), inst=inst.clone(),
+                                   done=nxt["done"].reshape(R, -1).all(-1).clone()))
+        self.n_steps += 1
         return out
 
     def get_reward(self, td, actions):
@@ -191,14 +263,20 @@ def _regime(W, n):
     return "W=2" if W == 2 else ("W=n" if W >= n else "2<W<n")
 
 
+def _tag(case):
+    """environment tag of the violation signatures / event classes (mTSP: with the cost type of the env object)."""
+    return case["env"] if case["env"] != "mtsp" else f"mtsp/{case.get('ct') or 'minmax'}"
+
+
 # --------------------------------------------------------------------------- main check
 def execute(case, ctx):
     envn, W, B = case["env"], int(case["W"]), int(case["B"])
     f64 = bool(case["f64"])
     sb = bool(case["select_best"])
-    cfg = env_cfg(envn, case["n"], case["variant"])
+    cfg = env_cfg(envn, case["n"], case["variant"], case.get("ct"))
     n = cfg["n"]
-    slice_ = f"{envn}|{'best' if sb else 'all'}"
+    tag = _tag(case)
+    slice_ = f"{tag}|{'best' if sb else 'all'}"
     env, inst, td0 = make_batch(envn, cfg, B, case["iseed"], double=f64)
     policy = build_policy("am", envn, env, seed=case["pseed"], spread=case["spread"], double=f64)
     policy.eval()
@@ -225,8 +303,8 @@ def execute(case, ctx):
         ctx.exclude("forced_start_infeasible(C12)")
         return
 
-    ctx.event(f"env:{envn}")
-    ctx.event(f"width:{_regime(W, n)}" + ("(default)" if wdefault else ""))
+    ctx.event(f"env:{tag}")
+    ctx.event(f"width:{_regime(W, n - 1 if envn == 'mtsp' else n)}" + ("(default)" if wdefault else ""))
     ctx.event("select_best" if sb else "all_beams")
     ctx.event("env_checker_on" if case.get("check", True) else "env_checker_off")
     if f64:
@@ -240,6 +318,7 @@ def execute(case, ctx):
 
 def _run(case, ctx, cfg, env, inst, td0, policy, slice_, W, wdefault):
     envn, B = case["env"], int(case["B"])
+    tag = _tag(case)
     f64 = bool(case["f64"])
     sb = bool(case["select_best"])
     n = cfg["n"]
@@ -277,7 +356,7 @@ def _run(case, ctx, cfg, env, inst, td0, policy, slice_, W, wdefault):
         # the observation channel itself failed (keys dropped / unexpected call pattern): not a verdict on the property
         raise RuntimeError(f"spy channel broken: lost={spy.lost_keys} starts={len(spy.starts)} rewards={len(spy.rewards)}")
     if len(spy.steps) != T:
-        ctx.violation(f"episode_length|{envn}", f"returned sequences have {T} steps but {len(spy.steps)} environment steps "
+        ctx.violation(f"episode_length|{tag}", f"returned sequences have {T} steps but {len(spy.steps)} environment steps "
                       f"were executed")
         return
     starts = spy.starts[0].long()
@@ -301,22 +380,22 @@ def _run(case, ctx, cfg, env, inst, td0, policy, slice_, W, wdefault):
     want_inst = torch.arange(R) % B
     for t, s in enumerate(spy.steps):
         if s["inst"].shape[0] != R or not torch.equal(s["inst"], want_inst):
-            ctx.violation(f"beam_crosses_instances|{envn}",
+            ctx.violation(f"beam_crosses_instances|{tag}",
                           f"after step {t} the rows hold states of instances {s['inst'].tolist()} (row r must hold r % B)")
     # executed history of the final slots == returned (back-tracked) sequences
     H = spy.steps[-1]["hist"][:, :T]
     if not torch.equal(H, A):
         bad = [r for r in range(R) if not torch.equal(H[r], A[r])]
-        ctx.violation(f"backtrack_vs_executed|{envn}",
+        ctx.violation(f"backtrack_vs_executed|{tag}",
                       f"returned sequence of row {bad[0]} is {A[bad[0]].tolist()} but the state in that row was reached by "
                       f"{H[bad[0]].tolist()}", {"returned": A, "executed": H})
 
     # ---- Oracle 2 (+ feasibility through the env's own masks): replay along the returned sequences
     ref = reference_logprobs(policy, env, td0, A, num_starts=W, forced_first=True)
-    ctx.check(bool(ref.in_mask.all()), f"action_outside_mask|{envn}", "a returned beam takes an action outside the env mask",
+    ctx.check(bool(ref.in_mask.all()), f"action_outside_mask|{tag}", "a returned beam takes an action outside the env mask",
               {"actions": A, "in_mask": ref.in_mask})
-    ctx.check(ref.mask_ok, f"decoder_mask_mismatch|{envn}", "decoder-returned mask differs from td['action_mask']")
-    ctx.check(ref.all_done_at == T, f"episode_length|{envn}",
+    ctx.check(ref.mask_ok, f"decoder_mask_mismatch|{tag}", "decoder-returned mask differs from td['action_mask']")
+    ctx.check(ref.all_done_at == T, f"episode_length|{tag}",
               f"returned {T} steps but replaying the beams finishes every row after {ref.all_done_at}")
     slack = 32 * eps * ref.scale
     if sb:
@@ -324,10 +403,10 @@ def _run(case, ctx, cfg, env, inst, td0, policy, slice_, W, wdefault):
         pass
     else:
         if not _close(ll_ret, ref.logp, tol, slack):
-            ctx.violation(f"ll_vs_replay|{envn}",
+            ctx.violation(f"ll_vs_replay|{tag}",
                           f"returned per-step log-probs differ from the policy's log-probs along the returned sequence by "
                           f"{_maxdiff(ll_ret, ref.logp):.3e}", {"ll": ll_ret, "replay": ref.logp, "actions": A})
-        ctx.check(bool((ll_ret[:, 0] == 0).all()), f"forced_start_nonzero|{envn}",
+        ctx.check(bool((ll_ret[:, 0] == 0).all()), f"forced_start_nonzero|{tag}",
                   "forced first move contributes a non-zero log-prob", {"ll0": ll_ret[:, 0]})
 
     # ---- Oracle 1: complete + feasible, reward == objective == get_reward on the replayed state
@@ -339,15 +418,15 @@ def _run(case, ctx, cfg, env, inst, td0, policy, slice_, W, wdefault):
         acts = A[r].tolist()
         fin = int(ref.done_at[r])
         if fin > T:
-            ctx.violation(f"beam_incomplete|{envn}", f"beam in row {r} never reports done: {acts}")
+            ctx.violation(f"beam_incomplete|{tag}", f"beam in row {r} never reports done: {acts}")
             fin = T
         body, tail = acts[:fin], acts[fin:]
         if tail and envn in DEPOT and any(a != 0 for a in tail):
-            ctx.violation(f"tail_not_padding|{envn}", f"row {r}: actions after the finishing step {fin} are {tail}")
+            ctx.violation(f"tail_not_padding|{tag}", f"row {r}: actions after the finishing step {fin} are {tail}")
         v = judge_row(jcase, spec, row, body)
         bad = violated(jcase, v)
         if bad:
-            ctx.violation(f"infeasible_beam|{envn}|{bad[0][0]}", f"beam in row {r} violates {bad}: {body}",
+            ctx.violation(f"infeasible_beam|{tag}|{bad[0][0]}", f"beam in row {r} violates {bad}: {body}",
                           {"row": r, "actions": acts, "instance": row})
         objs.append(v.obj)
         terms.append(abs(v.terms))
@@ -356,10 +435,10 @@ def _run(case, ctx, cfg, env, inst, td0, policy, slice_, W, wdefault):
     otol = (1e-9 if f64 else 1e-5) * (1 + terms_t)
     if not bool(((rew_spy.double() - objs_t).abs() <= otol).all()):
         r = int(((rew_spy.double() - objs_t).abs() - otol).argmax())
-        ctx.violation(f"reward_vs_objective|{envn}", f"reward {float(rew_spy[r])} != objective {objs[r]} (row {r})",
+        ctx.violation(f"reward_vs_objective|{tag}", f"reward {float(rew_spy[r])} != objective {objs[r]} (row {r})",
                       {"row": r, "actions": A[r], "instance": py_instance(envn, inst[r % B])})
-    r2 = ctx.guard(env.get_reward, ref.td.clone(), A.clone(), what=f"get_reward|{envn}").reshape(-1)
-    ctx.check(_close(rew_spy, r2, rtol), f"reward_vs_get_reward|{envn}",
+    r2 = ctx.guard(env.get_reward, ref.td.clone(), A.clone(), what=f"get_reward|{tag}").reshape(-1)
+    ctx.check(_close(rew_spy, r2, rtol), f"reward_vs_get_reward|{tag}",
               f"reward of the beams differs from env.get_reward(replayed final td, actions) by {_maxdiff(rew_spy, r2):.3e}")
 
     # ---- Oracle 3: distinct beams
@@ -370,7 +449,7 @@ def _run(case, ctx, cfg, env, inst, td0, policy, slice_, W, wdefault):
             continue
         seqs = [tuple(A[j * B + b].tolist()) for j in range(W)]
         if len(set(seqs)) < W:
-            ctx.violation(f"duplicate_beams|{envn}", f"instance {b}: forced starts {st_b} are distinct but the returned "
+            ctx.violation(f"duplicate_beams|{tag}", f"instance {b}: forced starts {st_b} are distinct but the returned "
                           f"beams are not pairwise distinct: {seqs}")
 
     # ---- Oracle 4: guided reference beam search on the kept prefixes the spy saw
@@ -380,16 +459,16 @@ def _run(case, ctx, cfg, env, inst, td0, policy, slice_, W, wdefault):
         follow.append([[tuple(s["hist"][j * B + b, :t + 1].tolist()) for j in range(W)] for b in range(B)])
     # step 0 of the run: every slot executed its forced start
     h0 = spy.steps[0]["hist"][:, 0]
-    ctx.check(torch.equal(h0, starts), f"forced_start_not_executed|{envn}",
+    ctx.check(torch.equal(h0, starts), f"forced_start_not_executed|{tag}",
               f"first executed moves {h0.tolist()} are not the forced starts {starts.tolist()}")
     bref = reference_beam_search(policy, env, td0, W, starts=starts, follow=follow)
     if bref.invalid is not None:
         t, b, slot, p = bref.invalid
         prev = [bm.prefix for bm in bref.steps[t - 1].kept[b]]
-        ctx.violation(f"kept_not_an_expansion|{envn}",
+        ctx.violation(f"kept_not_an_expansion|{tag}",
                       f"step {t}, instance {b}, slot {slot}: kept beam {list(p)} is not a feasible one-node expansion of "
                       f"the previous beams {prev} (with multiplicity)", {"step": t, "instance": b, "prefix": p})
-    ctx.check(bref.mask_ok, f"decoder_mask_mismatch|{envn}", "decoder-returned mask differs from td['action_mask'] (beam ref)")
+    ctx.check(bref.mask_ok, f"decoder_mask_mismatch|{tag}", "decoder-returned mask differs from td['action_mask'] (beam ref)")
     n_dec = n_multi = 0
     for t in range(1, T):
         stp = bref.steps[t]
@@ -402,7 +481,7 @@ def _run(case, ctx, cfg, env, inst, td0, policy, slice_, W, wdefault):
             for i in range(W):
                 if abs(kept[i] - top[i]) > tol * (1 + abs(top[i])):
                     ctx.violation(
-                        f"kept_not_top_w|{envn}",
+                        f"kept_not_top_w|{tag}",
                         f"step {t}, instance {b}: accumulated scores of the kept beams {kept} are not the {W} best of the "
                         f"{stp.ncand[b]} feasible expansions {top} (W-th/(W+1)-th gap {stp.gap[b]:.3e})",
                         {"step": t, "instance": b, "kept": [list(bm.prefix) for bm in stp.kept[b]], "kept_scores": kept,
@@ -422,7 +501,7 @@ def _run(case, ctx, cfg, env, inst, td0, policy, slice_, W, wdefault):
     if not _close(ref.logp, lp_anc, tol, slack):  # harness self-consistency across layouts (not a verdict on rl4co)
         ctx.event("replay_vs_beamref_layout_noise")
     if not sb and not _close(ll_ret, lp_anc, tol, 8 * eps * ref.scale):
-        ctx.violation(f"ll_vs_beam_ancestry|{envn}",
+        ctx.violation(f"ll_vs_beam_ancestry|{tag}",
                       f"returned per-step log-probs differ from those of the beam's ancestors by {_maxdiff(ll_ret, lp_anc):.3e}",
                       {"ll": ll_ret, "reference": lp_anc})
 
@@ -434,31 +513,38 @@ def _run(case, ctx, cfg, env, inst, td0, policy, slice_, W, wdefault):
             best = max(o)
             tb = (1e-9 if f64 else 1e-5) * (1 + max(terms[r] for r in rows))
             if abs(float(rew_ret[b]) - best) > tb:
-                ctx.violation(f"select_best_not_max|{envn}",
+                ctx.violation(f"select_best_not_max|{tag}",
                               f"instance {b}: returned reward {float(rew_ret[b])} but its beams have objectives {o}",
                               {"instance": b, "beam_rewards": [float(rew_spy[r]) for r in rows]})
             spied_best = max(float(rew_spy[r]) for r in rows)
-            ctx.check(abs(float(rew_ret[b]) - spied_best) <= rtol * (1 + abs(spied_best)), f"select_best_not_max|{envn}",
+            ctx.check(abs(float(rew_ret[b]) - spied_best) <= rtol * (1 + abs(spied_best)), f"select_best_not_max|{tag}",
                       f"instance {b}: returned reward {float(rew_ret[b])} but the compared beam rewards were "
                       f"{[float(rew_spy[r]) for r in rows]}")
             match = [r for r in rows if torch.equal(A[r], A_ret[b])]
             if not match:
-                ctx.violation(f"select_best_actions|{envn}", f"instance {b}: returned actions {A_ret[b].tolist()} are none of "
+                ctx.violation(f"select_best_actions|{tag}", f"instance {b}: returned actions {A_ret[b].tolist()} are none of "
                               f"its beams {[A[r].tolist() for r in rows]}")
                 continue
-            ctx.check(any(abs(objs[r] - best) <= tb for r in match), f"select_best_actions|{envn}",
+            ctx.check(any(abs(objs[r] - best) <= tb for r in match), f"select_best_actions|{tag}",
                       f"instance {b}: returned actions belong to a beam with objective {[objs[r] for r in match]}, best {best}")
+            # the reported reward is the objective of the RETURNED sequence (envs that keep their reward in the rollout
+            # state - mTSP minmax - report whatever state best-selection hands back)
+            ctx.check(abs(float(rew_ret[b]) - objs[match[0]]) <= tb, f"select_best_reward_vs_returned_actions|{tag}",
+                      f"instance {b}: returned reward {float(rew_ret[b])} but the returned actions {A_ret[b].tolist()} have "
+                      f"objective {objs[match[0]]}")
             ok = any(_close(ll_ret[b], ref.logp[r], tol, slack[r]) for r in match)
             if not ok:
-                ctx.violation(f"ll_vs_replay|{envn}|best",
+                ctx.violation(f"ll_vs_replay|{tag}|best",
                               f"instance {b}: returned per-step log-probs {ll_ret[b].tolist()} are not those of the selected "
                               f"beam {ref.logp[match[0]].tolist()}", {"actions": A_ret[b]})
-            ctx.check(float(ll_ret[b, 0]) == 0.0, f"forced_start_nonzero|{envn}",
+            ctx.check(float(ll_ret[b, 0]) == 0.0, f"forced_start_nonzero|{tag}",
                       "forced first move contributes a non-zero log-prob")
             if len(set(round(x, 9) for x in o)) > 1:
                 ctx.event("select_best_beams_differ_in_reward")
                 if o.index(best) != 0:
                     ctx.event("select_best_not_slot0")
+                    if envn == "mtsp":
+                        ctx.event(f"select_best_not_slot0|{tag}")
 
     # ---- coverage bookkeeping
     differ = bool(ref.done_at.min() != ref.done_at.max())
@@ -475,7 +561,417 @@ def _run(case, ctx, cfg, env, inst, td0, policy, slice_, W, wdefault):
                 [A[j * B].tolist() for j in range(W)], "scores_instance0": [round(bm.score, 4) for bm in last.kept[0]]})
 
 
+# =========================================================================== large stacked batches
+# Index buffers of a beam search (parent slot 0..W-1, parent slot * B, flat row 0..W*B-1, candidate index 0..W*N-1) are
+# small integers at toy size.  This slice draws stacked batches whose indices cross the ranges of every narrow integer
+# type an implementation could plausibly hold them in, with a tiny policy, and asserts the vectorised part of the oracle.
+I8, U8, I16, U16 = 2 ** 7, 2 ** 8, 2 ** 15, 2 ** 16
+BIG_HANG_S = 900
+REGIMES = {
+    # name: what crosses
+    "int16_rows": "(W-1)*B >= 2^15 with W 8-12: parent-slot*B and flat rows beyond int16",
+    "int16_wide": "(W-1)*B >= 2^15 with W 20-31, n >= W: same with many slots (candidate index W*N > 255)",
+    "uint16_rows": "(W-1)*B >= 2^16 with W 8-16: beyond uint16",
+    "int8_slots": "W 129-136 on n >= W, B 1-3: parent SLOT beyond int8 (and rows beyond int8/uint8)",
+    "uint8_slots": "W 257-262 on n >= W, B 1-2: parent slot beyond uint8",
+}
+
+
+def _ceil_div(a, b):
+    return -(-a // b)
+
+
+@st.composite
+def big_cases(draw, tier="quick", regime="int16_rows"):
+    """One regime per sub-check.  The minimal example of each strategy (always Hypothesis' first example of a run) is the
+    regime's exact boundary case on TSP: smallest width, n = W, the smallest B whose last slot lies beyond the limit,
+    best-selection on, env checker off."""
+    if regime == "int16_rows":
+        envn = draw(st.sampled_from(["tsp", "mtsp", "tsp"]))
+        W = draw(st.sampled_from([10, 8, 9, 11, 12]))
+        lim = I16
+    elif regime == "int16_wide":
+        envn = draw(st.sampled_from(["tsp", "mtsp", "tsp"]))
+        W = draw(st.integers(20, 31))
+        lim = I16
+    elif regime == "uint16_rows":
+        envn = "tsp"
+        W = draw(st.sampled_from([10, 8, 12, 16]))
+        lim = U16
+    elif regime == "int8_slots":
+        envn = draw(st.sampled_from(["tsp", "tsp", "mtsp"]))
+        W = draw(st.integers(I8 + 1, I8 + 8))
+        lim = None
+    else:
+        assert regime == "uint8_slots"
+        envn = "tsp"
+        W = draw(st.integers(U8 + 1, U8 + 6))
+        lim = None
+    d = draw(st.integers(0, 2 if W < 100 else 6))
+    n = W + d + (1 if envn == "mtsp" else 0)  # mtsp: n locations = depot + cities; forced starts distinct iff W <= cities
+    if lim is not None:
+        bmin = _ceil_div(lim, W - 1)
+        B = bmin + draw(st.integers(0, bmin // 8))  # bmin: only the last slot's rows lie beyond the limit
+    else:
+        B = draw(st.integers(1, 3 if regime == "int8_slots" else 2))
+    extra = {"ct": draw(st.sampled_from(["minmax", "minmax", "sum"]))} if envn == "mtsp" else {}
+    return dict(regime=regime, env=envn, **extra, n=n, W=W, B=B, iseed=draw(st.integers(0, 2 ** 20)),
+                pseed=draw(st.integers(0, 3)), spread=draw(st.sampled_from([1.5, 1.25, 2.0])),
+                select_best=draw(st.sampled_from([True, False])), check=draw(st.sampled_from([False, True])))
+
+
+def big_minimize(case):
+    c = dict(case)
+    lim = {"int16_rows": I16, "int16_wide": I16, "uint16_rows": U16}.get(c["regime"])
+    if lim is not None:
+        bmin = _ceil_div(lim, c["W"] - 1)
+        if c["B"] > bmin:
+            yield {**c, "B": bmin}
+        # still failing below the limit: not a matter of the index range
+        for b in (bmin - 1, bmin // 2, bmin // 16, 2):
+            if 1 <= b < c["B"]:
+                yield {**c, "B": b}
+    elif c["B"] > 1:
+        yield {**c, "B": 1}
+    for key, val in (("select_best", False), ("check", False), ("spread", 1.5), ("pseed", 0)):
+        if c.get(key) != val:
+            yield {**c, key: val}
+
+
+_TINY = {}
+
+
+def tiny_policy(envn, seed, spread):
+    """AM policy with embed 16, 1 encoder layer, 2 heads (batch norm, eval mode), spread-initialised like
+    vf.policies.build_policy; cached per process; global RNG state preserved."""
+    key = (envn, int(seed), float(spread))
+    if key not in _TINY:
+        from rl4co.models import AttentionModelPolicy
+        state = torch.get_rng_state()
+        try:
+            torch.manual_seed(int(seed))
+            p = AttentionModelPolicy(env_name=envn, embed_dim=16, num_encoder_layers=1, num_heads=2, feedforward_hidden=32,
+                                     normalization="batch")
+            with torch.no_grad():
+                for _, prm in p.named_parameters():
+                    if prm.requires_grad and prm.dim() >= 2:
+                        prm.mul_(float(spread))
+        finally:
+            torch.set_rng_state(state)
+        for m in p.modules():
+            if isinstance(m, torch.nn.Dropout):
+                m.p = 0.0
+        _TINY[key] = p
+    p = _TINY[key]
+    p.eval()
+    return p
+
+
+def big_cfg(case):
+    envn, n = case["env"], int(case["n"])
+    cfg = small_cfg(envn, n)
+    if envn == "mtsp":
+        cfg.update(min_agents=1, max_agents=min(4, n - 1), cost_type=case.get("ct") or "minmax")
+    return cfg
+
+
+def vec_judge(envn, ct, inst, A, B):
+    """Vectorised independent verdict for TSP / mTSP (float64), rows r of A belong to instance r % B.
+    -> valid [R] bool, objective [R], terms [R] (sum of all leg lengths), fin [R] (steps up to the last city visit).
+    TSP: valid = the row is a permutation of 0..n-1; objective = -closed tour length.
+    mTSP: valid = every city 1..n-1 exactly once and (#depot visits before the last city) + 1 <= num_agents (the C01
+    oracle's rule: routes = the action list split at depot visits, trailing depot padding stripped); objective =
+    -(longest | sum of) depot-to-depot route lengths of depot + actions + depot (padding legs depot->depot are 0)."""
+    R, T = A.shape
+    idx = torch.arange(R) % B
+    locs = inst["locs"].double()
+    n = locs.shape[1]
+    L = locs[idx]
+    inr = (A >= 0) & (A < n)
+    Ac = A.clamp(0, n - 1)
+    cnt = torch.zeros(R, n, dtype=torch.long).scatter_add(1, Ac, inr.long())
+    if envn == "tsp":
+        valid = inr.all(1) & (cnt == 1).all(1) & (T == n)
+        P = L.gather(1, Ac.unsqueeze(-1).expand(R, T, 2))
+        tot = (P - P.roll(-1, 1)).pow(2).sum(-1).sqrt().sum(1)
+        return valid, -tot, tot, torch.full((R,), T, dtype=torch.long)
+    pos = torch.arange(1, T + 1).view(1, T)
+    fin = (pos * (Ac != 0)).max(1).values                      # steps up to (including) the last city visit
+    zeros_before = ((Ac == 0) & (pos <= fin.view(R, 1))).sum(1)
+    m = inst["num_agents"].reshape(-1).long()[idx]
+    valid = inr.all(1) & (cnt[:, 1:] == 1).all(1) & (zeros_before + 1 <= m)
+    z = torch.zeros(R, 1, dtype=torch.long)
+    seq = torch.cat([z, Ac, z], 1)
+    P = L.gather(1, seq.unsqueeze(-1).expand(R, T + 2, 2))
+    legs = (P[:, 1:] - P[:, :-1]).pow(2).sum(-1).sqrt()        # [R, T+1]; leg i: seq[i] -> seq[i+1]
+    seg = torch.cat([z, (Ac == 0).long().cumsum(1)], 1)         # route of leg i = #depot visits among actions[:i]
+    routes = torch.zeros(R, T + 2, dtype=torch.float64).scatter_add(1, seg, legs)
+    tot = legs.sum(1)
+    obj = -routes.max(1).values if ct == "minmax" else -tot
+    return valid, obj, tot, fin
+
+
+def execute_big(case, ctx):
+    envn, n, W, B = case["env"], int(case["n"]), int(case["W"]), int(case["B"])
+    sb = bool(case["select_best"])
+    tag = _tag(case)
+    slice_ = f"{tag}|{'best' if sb else 'all'}|big"
+    cfg = big_cfg(case)
+    env, inst, td0 = make_batch(envn, cfg, B, case["iseed"])
+    policy = tiny_policy(envn, case["pseed"], case["spread"])
+    ctx.event(f"regime:{case['regime']}")
+    ctx.event(f"env:{tag}")
+    ctx.event("select_best" if sb else "all_beams")
+    ctx.event("env_checker_on" if case.get("check", True) else "env_checker_off")
+    for name, lim in (("int8", I8), ("uint8", U8), ("int16", I16), ("uint16", U16)):
+        if (W - 1) * B >= lim:
+            ctx.event(f"(W-1)*B>={name}")
+        if W - 1 >= lim:
+            ctx.event(f"W-1>={name}")
+    try:
+        with watchdog(BIG_HANG_S):
+            _run_big(case, ctx, cfg, env, inst, td0, policy, tag, slice_)
+    except Hang:
+        ctx.violation(f"hang|{slice_}", f"beam search / replay did not return within {BIG_HANG_S}s (W={W}, B={B}, n={n})")
+
+
+def _first(mask):
+    return int(torch.nonzero(mask.reshape(-1))[0])
+
+
+def _run_big(case, ctx, cfg, env, inst, td0, policy, tag, slice_):
+    envn, n, W, B = case["env"], int(case["n"]), int(case["W"]), int(case["B"])
+    ct = cfg.get("cost_type")
+    sb = bool(case["select_best"])
+    R = W * B
+    tol, rtol, eps = 1e-5, 1e-6, 2.0 ** -23
+    max_steps = 6 * n + 24
+    Tcap = n + (cfg["max_agents"] if envn == "mtsp" else 0) + 8
+
+    spy = SpyEnv(env, light=True, B=B)
+    tdin = td0.clone()
+    tdin.set("vf_hist", torch.full((B, Tcap), -1, dtype=torch.long))
+    tdin.set("vf_len", torch.zeros(B, dtype=torch.long))
+    tdin.set("vf_inst", torch.arange(B))
+    torch.manual_seed(case["iseed"])
+    # env built with the documented check_solution=False in half of the cases (restored right after: shared env object)
+    check0 = env.check_solution
+    env.check_solution = bool(case.get("check", True))
+    try:
+        with torch.no_grad():
+            out = ctx.guard(policy, tdin, spy, what=f"policy|{slice_}", decode_type="beam_search", beam_width=W,
+                            select_best=sb, return_actions=True, return_sum_log_likelihood=False, max_steps=max_steps)
+    finally:
+        env.check_solution = check0
+    A_ret, ll_ret, rew_ret = out["actions"].long(), out["log_likelihood"], out["reward"].reshape(-1)
+    T = A_ret.shape[1]
+    Rret = B if sb else R
+    ctx.check(A_ret.shape[0] == Rret and rew_ret.shape[0] == Rret and tuple(ll_ret.shape) == (Rret, T),
+              f"shape|{slice_}", f"actions {tuple(A_ret.shape)} ll {tuple(ll_ret.shape)} reward "
+              f"{tuple(out['reward'].shape)} for B={B}, W={W}, select_best={sb}")
+    if spy.lost_keys or len(spy.starts) != 1 or not spy.rewards:
+        raise RuntimeError(f"spy channel broken: lost={spy.lost_keys} starts={len(spy.starts)} rewards={len(spy.rewards)}")
+    if spy.n_steps != T or T > Tcap:
+        ctx.violation(f"episode_length|{tag}|big", f"returned sequences have {T} steps, {spy.n_steps} environment steps were "
+                      f"executed (n={n}, at most {Tcap - 8} steps finish every row)")
+        return
+    starts = spy.starts[0].long()
+    m0 = expand_starts(td0, W)["action_mask"]
+    if starts.shape[0] != R or int(starts.max()) >= m0.shape[1] or int(starts.min()) < 0 \
+            or not bool(m0.gather(1, starts.view(-1, 1)).all()):
+        ctx.exclude("forced_start_infeasible(C12)")
+        return
+    if sb:
+        allc = [(a, r) for a, r in spy.rewards if a.shape[0] == R]
+        if not allc:
+            ctx.exclude("select_best_without_all_beam_reward_call")
+            return
+        A, rew_spy = allc[0][0].long(), allc[0][1].reshape(-1)
+        ctx.check(tuple(A.shape) == (R, T), f"shape|{slice_}", f"best-selection compared actions of shape {tuple(A.shape)}")
+    else:
+        A, rew_spy = A_ret, rew_ret
+
+    # ---- rows stay inside their instance; executed history of the final rows == returned (back-tracked) sequences
+    if spy.crossed_at is not None:
+        ctx.violation(f"beam_crosses_instances|{tag}|big",
+                      f"after step {spy.crossed_at} some row r holds a state of another instance than r % B (B={B}, W={W})")
+    ar = torch.arange(R)
+    for t, P in enumerate(spy.parents):
+        if not torch.equal(P % B, ar % B):
+            r = _first(P % B != ar % B)
+            ctx.violation(f"beam_crosses_instances|{tag}|big", f"step {t + 1}: row {r} (instance {r % B}) continues the state "
+                          f"of row {int(P[r])} (instance {int(P[r]) % B})")
+    H = spy.steps[-1]["hist"][:, :T]
+    if not torch.equal(H, A):
+        bad = (H != A).any(1)
+        r = _first(bad)
+        ctx.violation(f"backtrack_vs_executed|{tag}|big",
+                      f"{int(bad.sum())} of {R} returned sequences are not the sequence that was executed to reach the state in "
+                      f"their row; first: row {r} (slot {r // B}, instance {r % B}) returned {A[r].tolist()}, executed "
+                      f"{H[r].tolist()}", {"row": r, "returned": A[r], "executed": H[r]})
+
+    # ---- Oracle 1 (vectorised): every beam complete + feasible; reward == independent objective
+    valid, obj, terms, fin = vec_judge(envn, ct, inst, A, B)
+    # harness self-consistency: the vectorised verdict agrees with the C01 oracle on a few rows (both ends, around 2^15)
+    spec, jcase = SPECS[envn], {"env": envn, "cfg": cfg, "src": "gen"}
+    for r in sorted({0, 1, R // 2, R - 1, I16 - 1, I16, U16 - 1, U16} & set(range(R))):
+        v = judge_row(jcase, spec, py_instance(envn, inst[r % B]), A[r].tolist()[:int(fin[r])])
+        if bool(valid[r]) != (not violated(jcase, v)) or (bool(valid[r]) and abs(v.obj - float(obj[r])) > 1e-9 * (1 + abs(v.terms))):
+            raise RuntimeError(f"vectorised verdict disagrees with the row oracle at row {r}: {bool(valid[r])}/{float(obj[r])} "
+                               f"vs {violated(jcase, v)}/{v.obj} for {A[r].tolist()}")
+    if not bool(valid.all()):
+        r = _first(~valid)
+        ctx.violation(f"infeasible_beam|{tag}|big",
+                      f"{int((~valid).sum())} of {R} beams are not valid solutions; first: row {r} (slot {r // B}, instance "
+                      f"{r % B}): {A[r].tolist()}", {"row": r, "actions": A[r], "instance": py_instance(envn, inst[r % B])})
+    otol = 1e-5 * (1 + terms)
+    if not bool(((rew_spy.double() - obj).abs() <= otol).all()):
+        r = int(((rew_spy.double() - obj).abs() - otol).argmax())
+        ctx.violation(f"reward_vs_objective|{tag}|big", f"reward {float(rew_spy[r])} != objective {float(obj[r])} (row {r}): "
+                      f"{A[r].tolist()}", {"row": r, "actions": A[r], "instance": py_instance(envn, inst[r % B])})
+
+    # ---- Oracle 2: teacher-forced replay of all W*B returned sequences (reference loop, one vectorised pass)
+    ref = reference_logprobs(policy, env, td0, A, num_starts=W, forced_first=True)
+    if not bool(ref.in_mask.all()):
+        r = _first(~ref.in_mask.all(1))
+        ctx.violation(f"action_outside_mask|{tag}|big", f"{int((~ref.in_mask.all(1)).sum())} of {R} returned beams take an action "
+                      f"outside the env mask; first: row {r}: {A[r].tolist()}", {"row": r, "actions": A[r]})
+    ctx.check(ref.mask_ok, f"decoder_mask_mismatch|{tag}|big", "decoder-returned mask differs from td['action_mask']")
+    ctx.check(ref.all_done_at == T, f"episode_length|{tag}|big",
+              f"returned {T} steps but replaying the beams finishes every row after {ref.all_done_at}")
+    if not torch.equal(ref.done_at, fin):
+        r = _first(ref.done_at != fin)
+        ctx.violation(f"beam_incomplete|{tag}|big", f"row {r}: the env reports done after {int(ref.done_at[r])} steps (T+1 = "
+                      f"never), the last city is visited at step {int(fin[r])}: {A[r].tolist()}")
+    if envn in DEPOT:
+        tail = (torch.arange(1, T + 1).view(1, T) > fin.view(R, 1)) & (A != 0)
+        if bool(tail.any()):
+            r = _first(tail.any(1))
+            ctx.violation(f"tail_not_padding|{tag}|big", f"row {r}: actions after the finishing step {int(fin[r])}: {A[r].tolist()}")
+    r2 = ctx.guard(env.get_reward, ref.td.clone(), A.clone(), what=f"get_reward|{tag}|big").reshape(-1)
+    ctx.check(_close(rew_spy, r2, rtol), f"reward_vs_get_reward|{tag}|big",
+              f"reward of the beams differs from env.get_reward(replayed final td, actions) by {_maxdiff(rew_spy, r2):.3e}")
+    slack = 32 * eps * ref.scale
+    if not sb:
+        if not _close(ll_ret, ref.logp, tol, slack):
+            d = ((ll_ret.double() - ref.logp).abs() - tol * (1 + ref.logp.abs()) - slack).max(1).values
+            r = int(d.argmax())
+            ctx.violation(f"ll_vs_replay|{tag}|big",
+                          f"returned per-step log-probs differ from the policy's log-probs along the returned sequence by "
+                          f"{_maxdiff(ll_ret, ref.logp):.3e} ({int((d > 0).sum())} of {R} rows; worst row {r}, slot {r // B})",
+                          {"row": r, "ll": ll_ret[r], "replay": ref.logp[r], "actions": A[r]})
+        ctx.check(bool((ll_ret[:, 0] == 0).all()), f"forced_start_nonzero|{tag}|big",
+                  "forced first move contributes a non-zero log-prob")
+
+    # ---- Oracle 3: distinct beams (instances whose forced starts are pairwise distinct)
+    Aw, Sw = A.view(W, B, T), starts.view(W, B)
+    ss = Sw.sort(0).values
+    st_ok = (ss[1:] != ss[:-1]).all(0) if W > 1 else torch.ones(B, dtype=torch.bool)
+    if not bool(st_ok.all()):
+        ctx.event("forced_starts_repeat", int((~st_ok).sum()))
+    dup = torch.zeros(B, dtype=torch.bool)
+    for j in range(W - 1):
+        dup |= (Aw[j + 1:] == Aw[j:j + 1]).all(-1).any(0)
+    dup &= st_ok
+    if bool(dup.any()):
+        b = _first(dup)
+        ctx.violation(f"duplicate_beams|{tag}|big", f"{int(dup.sum())} of {B} instances have forced starts that are pairwise "
+                      f"distinct but returned beams that are not; first: instance {b}: {Aw[:, b].tolist()}")
+    ctx.check(torch.equal(spy.first_actions, starts), f"forced_start_not_executed|{tag}|big",
+              "the first executed moves are not the forced starts handed out by select_start_nodes")
+
+    # ---- Oracle 5: best-selection
+    if sb:
+        objw, reww, termw = obj.view(W, B), rew_spy.double().view(W, B), terms.view(W, B)
+        best = objw.max(0).values
+        tb = 1e-5 * (1 + termw.max(0).values)
+        bad = (rew_ret.double() - best).abs() > tb
+        if bool(bad.any()):
+            b = _first(bad)
+            ctx.violation(f"select_best_not_max|{tag}|big",
+                          f"{int(bad.sum())} of {B} instances: returned reward is not the maximum over the instance's beams; "
+                          f"first: instance {b}: returned {float(rew_ret[b])}, beam objectives {objw[:, b].tolist()}",
+                          {"instance": b, "beam_rewards": reww[:, b]})
+        sbest = reww.max(0).values
+        bad = (rew_ret.double() - sbest).abs() > rtol * (1 + sbest.abs())
+        if bool(bad.any()):
+            b = _first(bad)
+            ctx.violation(f"select_best_not_max|{tag}|big", f"instance {b}: returned reward {float(rew_ret[b])} but the compared "
+                          f"beam rewards were {reww[:, b].tolist()}")
+        eq = (Aw == A_ret.view(1, B, T)).all(-1)  # [W,B] beams equal to the returned sequence
+        if not bool(eq.any(0).all()):
+            b = _first(~eq.any(0))
+            ctx.violation(f"select_best_actions|{tag}|big", f"instance {b}: returned actions {A_ret[b].tolist()} are none of its "
+                          f"beams {Aw[:, b].tolist()}")
+        else:
+            jm = eq.long().argmax(0)  # first matching slot
+            rows = jm * B + torch.arange(B)
+            bad = (obj[rows] - best).abs() > tb
+            if bool(bad.any()):
+                b = _first(bad)
+                ctx.violation(f"select_best_actions|{tag}|big", f"instance {b}: returned actions belong to a beam with objective "
+                              f"{float(obj[rows[b]])}, best {float(best[b])}")
+            # reported reward == independent objective of the RETURNED sequence (judged on its own, as instance b)
+            v_ret, obj_ret, terms_ret, _ = vec_judge(envn, ct, inst, A_ret, B)
+            bad = (rew_ret.double() - obj_ret).abs() > 1e-5 * (1 + terms_ret)
+            if bool(bad.any()) or not bool(v_ret.all()):
+                b = _first(bad | ~v_ret)
+                ctx.violation(f"select_best_reward_vs_returned_actions|{tag}|big",
+                              f"instance {b}: returned reward {float(rew_ret[b])} but the returned actions {A_ret[b].tolist()} "
+                              f"have objective {float(obj_ret[b])} (valid={bool(v_ret[b])})")
+            if not _close(ll_ret, ref.logp[rows], tol, slack[rows]):
+                d = ((ll_ret.double() - ref.logp[rows]).abs() - tol * (1 + ref.logp[rows].abs()) - slack[rows]).max(1).values
+                b = int(d.argmax())
+                ctx.violation(f"ll_vs_replay|{tag}|best|big",
+                              f"{int((d > 0).sum())} of {B} instances: returned per-step log-probs are not those of the selected "
+                              f"beam; worst: instance {b}: {ll_ret[b].tolist()} vs {ref.logp[rows[b]].tolist()}",
+                              {"actions": A_ret[b]})
+            ctx.check(bool((ll_ret[:, 0] == 0).all()), f"forced_start_nonzero|{tag}|big",
+                      "forced first move contributes a non-zero log-prob")
+        differ = (objw.max(0).values - objw.min(0).values) > 1e-9
+        ctx.event("select_best_instances_beams_differ_in_reward", int(differ.sum()))
+        ctx.event("select_best_instances_best_not_slot0", int((differ & (objw.argmax(0) != 0)).sum()))
+
+    # ---- coverage bookkeeping: which parent rows / slots were REALLY used (observed through vf_row)
+    pmax = smax = 0
+    reordered = False
+    over = {"int8": 0, "uint8": 0, "int16": 0, "uint16": 0}
+    for P in spy.parents:
+        pmax = max(pmax, int(P.max()))
+        smax = max(smax, int(P.max()) // B)
+        reordered = reordered or not torch.equal(P, ar)
+        off = (P // B) * B  # the product parent-slot * batch size an implementation adds to the instance index
+        for name, lim in (("int8", I8), ("uint8", U8), ("int16", I16), ("uint16", U16)):
+            over[name] += int((off >= lim).sum())
+    for name, cnt in over.items():
+        if cnt:
+            ctx.event(f"kept_beams_with_parent_slot*B>={name}", cnt)
+    for name, lim in (("int8", I8), ("uint8", U8)):
+        if smax >= lim:
+            ctx.event(f"parent_slot>={name}_used")
+    if reordered:
+        ctx.event("reordered")
+    lim = {"int16_rows": I16, "int16_wide": I16, "uint16_rows": U16}.get(case["regime"])
+    crossed = (pmax // B) * B >= lim if lim is not None else smax >= (I8 if case["regime"] == "int8_slots" else U8)
+    if reordered and crossed:
+        ctx.nontriv()
+    else:
+        ctx.event("boundary_not_exercised")
+    if envn in VARLEN and bool(ref.done_at.min() != ref.done_at.max()):
+        ctx.event("beams_finish_at_different_steps")
+    ctx.sample({"regime": case["regime"], "env": tag, "n": n, "W": W, "B": B, "rows": R, "select_best": sb, "T": T,
+                "max_parent_row_used": pmax})
+
+
+
 SUBS = [
     Sub("beam_search", execute, strategy=lambda tier: cases(tier), budget={"quick": 480, "thorough": 6000}, shards=16,
         shrink=False, minimize=minimize),
+] + [
+    # one sub-check per index-range regime, one shard each: Hypothesis' first example of a run is always the strategy's
+    # minimal one = the regime's exact boundary case (e.g. tsp n=10, W=10, B=3641: the smallest stacked batch whose last
+    # slot lies beyond int16); the following ones are drawn.  quick: boundary case + 1 drawn per regime
+    Sub(f"big_{regime}", execute_big, strategy=(lambda tier, regime=regime: big_cases(tier, regime)),
+        budget={"quick": 2, "thorough": 12}, shards=1, shrink=False, minimize=big_minimize, weight=4.0)
+    for regime in REGIMES
 ]
